@@ -1,3 +1,5 @@
 import CssVerif.Model.Re
 import CssVerif.Model.Tokenizer
 import CssVerif.Gen.Productions
+import CssVerif.Props.C08
+import CssVerif.Props.C09
